@@ -47,6 +47,7 @@ func strategyCfg() ExploreConfig {
 }
 
 func runC07(c *Ctx) {
+	defer checkRegisteredClaimsWin(c, "C07.R11", "(*"+pkgJWT+".JWTClaims).ToMap", "exp")
 	defer checkSessionSetExpiresAt(c, "C07.R10")
 	defer checkConfigGetters(c, "C07.R9", "GetAccessTokenLifespan", "GetRefreshTokenLifespan", "GetAuthorizeCodeLifespan", "GetIDTokenLifespan", "GetDeviceAndUserCodeLifespan", "GetPushedAuthorizeContextLifespan", "GetJWTMaxDuration")
 	readers := c07R1(c)
@@ -441,14 +442,43 @@ var kindLifespan = map[string]string{
 
 func lifespanInline(fn *ssa.Function) bool {
 	// only the handler's own small helpers (grant-type selector, getExpiresIn); nothing that multiplies paths
-	return defaultInline(fn) && fn.Parent() == nil && len(fn.Blocks) <= 4 || fn.Name() == "IssueImplicitAccessToken" || fn.Name() == "IssueAccessToken"
+	if defaultInline(fn) && fn.Parent() == nil && len(fn.Blocks) <= 4 || fn.Name() == "IssueImplicitAccessToken" || fn.Name() == "IssueAccessToken" {
+		return true
+	}
+	// ... and a helper that stamps expiries or selects a lifespan itself (the "stamp access and refresh
+	// expiry" block extracted from several handlers), as long as it is small
+	return defaultInline(fn) && fn.Parent() == nil && len(fn.Blocks) <= 14 && callsAnyNamed(fn, "SetExpiresAt", "GetEffectiveLifespan")
+}
+
+// callsAnyNamed: the function body contains a call (static or through an interface) of one of the names.
+func callsAnyNamed(fn *ssa.Function, names ...string) bool {
+	for _, b := range fn.Blocks {
+		for _, ins := range b.Instrs {
+			ci, ok := ins.(ssa.CallInstruction)
+			if !ok {
+				continue
+			}
+			n := ""
+			if ci.Common().IsInvoke() {
+				n = ci.Common().Method.Name()
+			} else if sf := ci.Common().StaticCallee(); sf != nil {
+				n = sf.Name()
+			}
+			for _, w := range names {
+				if n == w {
+					return true
+				}
+			}
+		}
+	}
+	return false
 }
 
 func c07R3(c *Ctx) {
 	const rule = "C07.R3"
 	nEL := 0
 	for _, en := range c.allEntries() {
-		if en.role == "endpoint" || !c.P.CallsNamed(en.fn, "fosite.GetEffectiveLifespanX", 0) && !c.P.UsesFunc(en.fn, pkgRoot+".GetEffectiveLifespan", 3) {
+		if en.role == "endpoint" || !c.P.CallsNamed(en.fn, "fosite.GetEffectiveLifespanX", 0) && !c.P.UsesFunc(en.fn, pkgRoot+".GetEffectiveLifespan", 3) && !c.P.RefsMethod(en.fn, 3, ".GetEffectiveLifespan") {
 			continue
 		}
 		ex := c.Explore(en.fn, ExploreConfig{Inline: lifespanInline, KeepPure: true}, "lifespan")
@@ -462,7 +492,8 @@ func c07R3(c *Ctx) {
 		seen := false
 		check := func(p *Path, t *Term, K *Term) {
 			t.Walk(func(s *Term) bool {
-				if !s.IsCall("fosite.GetEffectiveLifespan") || len(s.Args) != 4 {
+				// the package function, or the client's method it wraps (same operands after the client)
+				if !(s.IsCall("fosite.GetEffectiveLifespan") || s.IsCall(".GetEffectiveLifespan")) || len(s.Args) != 4 {
 					return true
 				}
 				seen = true
@@ -491,6 +522,14 @@ func c07R3(c *Ctx) {
 				if e.Kind == "call" && e.Name == ".SetExpiresAt" {
 					K, X := e.Arg(0), e.Arg(1)
 					check(p, X, K)
+					// a stamp computed from the plain configuration value uses the getter of its own kind
+					if kv, isC := K.StrConst(); isC && kindLifespan[kv] != "" {
+						for other, g := range kindLifespan {
+							if other != kv && g != kindLifespan[kv] && X.Mentions(func(s *Term) bool { return s.IsCall(g) }) && !X.Mentions(func(s *Term) bool { return s.IsCall(kindLifespan[kv]) }) {
+								ok, w, why = false, p, fmt.Sprintf("the %s expiry is computed from %s", kv, g)
+							}
+						}
+					}
 					if !mentionsNow(X) {
 						ok, w, why = false, p, "SetExpiresAt("+K.Pretty()+") is not computed from the current time"
 					}
@@ -498,7 +537,7 @@ func c07R3(c *Ctx) {
 						// guarded by d > -1
 						var d *Term
 						X.Walk(func(s *Term) bool {
-							if s.IsCall("fosite.GetEffectiveLifespan") {
+							if s.IsCall("fosite.GetEffectiveLifespan") || s.IsCall(".GetEffectiveLifespan") {
 								d = s
 							}
 							return true
